@@ -160,7 +160,7 @@ def quiet():
         sys.stdout = old
 
 
-def run(main_fn, choose, max_steps=4000, hang_rounds=30):
+def run(main_fn, choose, max_steps=15000, hang_rounds=30):
     """Run main_fn() as the parent process of a simulated multi-process execution."""
     out = Outcome()
     with simmp.installed() as S:
